@@ -1139,6 +1139,11 @@ def _aliases(fn):
     for k in cands:
         v = value[k]
         order, loops, body, i = site[k]
+        if isinstance(v, ast.Name) and v.id != k and v.id not in ("self", "cls") and loads.get(k, 0) and not later(name_stores.get(v.id, []), order, loops):
+            # `b = a` with `a` never rebound afterwards: b is a second name of the same object wherever b exists at all (no dominance needed, mutation through either name
+            # is mutation of the one object)
+            out[k] = v
+            continue
         if k in mutated and not _is_path(v):
             continue
         free = {x.id for x in ast.walk(v) if isinstance(x, ast.Name) and isinstance(x.ctx, ast.Load)}
